@@ -422,7 +422,7 @@ addm("C12", [M_DE["lc2"], M_TM["wheel"], M_TM["timer"], M_POLL, M_CH["process"]]
 addm("C13", [M_H["idles"], M_H["insidle"], M_L["run"]])
 addm("C14", [M_DE["lc2"], M_DE["fsub"], M_DE["rm3"]])
 addm("C15", [M_H["reg1"], M_H["enable"], M_H["update"], M_H["disable"], M_IO["new"], M_DE["err1"], M_DE["err2"], M_DE["pa2"], M_SLOTS, M_DE["fsub"]])
-addm("C16", [M_IO["drop"], M_IO["new"], M_DE["rm3"], M_DELEG])
+addm("C16", [M_IO["drop"], M_IO["new"], M_DE["rm3"], M_DELEG, M_H["remove"]])
 addm("C17", [M_IO["io"], M_IO["new"], M_IO["drop"]])
 for _p in ("C03",):
     PROPS[_p]["level"] = "model_checking"
